@@ -8,7 +8,7 @@ names = sys.argv[1:] or sorted(meta)
 res = json.load(open('mutants/results.json')) if os.path.exists('mutants/results.json') and sys.argv[1:] else {}
 for n in names:
     m = meta[n]
-    out = subprocess.run(['tools/tryseed.sh', f'mutants/{n}.diff'] + m['expected'], env=dict(os.environ, SKIP_SUITE='1'), capture_output=True, text=True).stdout
+    out = subprocess.run(['tools/tryseed.sh', f'mutants/{n}.diff'] + m['expected'], env=dict(os.environ, SKIP_SUITE='1'), capture_output=True, text=True, errors='replace').stdout
     det = {}
     cur = None
     for l in out.splitlines():
